@@ -16,16 +16,16 @@ import (
 func VH_C09_subdir() {
 	n1, n2 := v.String("n1", 1), v.String("n2", 1)
 	v.Assume(n1[0] != '/' && n1[0] != 0 && n1[0] != '.' && n2[0] != '/' && n2[0] != 0 && n2[0] != '.' && n1 != n2)
-	mkInner := func(tag string) *memFS {
-		fs := &memFS{walkErrAt: -1}
-		fs.entries = append(fs.entries, &memEntry{stat: &types.Stat{Path: "f", Mode: 0644, Size: 1}, data: v.Bytes(tag+"-f", 1)})
+	mkInner := func(tag string) *vh_memFS {
+		fs := &vh_memFS{walkErrAt: -1}
+		fs.entries = append(fs.entries, &vh_memEntry{stat: &types.Stat{Path: "f", Mode: 0644, Size: 1}, data: v.Bytes(tag+"-f", 1)})
 		switch v.Choose(tag+"-second", 4) {
 		case 1:
-			fs.entries = append(fs.entries, &memEntry{stat: &types.Stat{Path: "g", Mode: 0644, Linkname: "f"}}) // hard link to f
+			fs.entries = append(fs.entries, &vh_memEntry{stat: &types.Stat{Path: "g", Mode: 0644, Linkname: "f"}}) // hard link to f
 		case 2:
-			fs.entries = append(fs.entries, &memEntry{stat: &types.Stat{Path: "g", Mode: uint32(os.ModeSymlink) | 0777, Linkname: "/abs/t"}})
+			fs.entries = append(fs.entries, &vh_memEntry{stat: &types.Stat{Path: "g", Mode: uint32(os.ModeSymlink) | 0777, Linkname: "/abs/t"}})
 		case 3:
-			fs.entries = append(fs.entries, &memEntry{stat: &types.Stat{Path: "g", Mode: uint32(os.ModeSymlink) | 0777, Linkname: "rel/t"}})
+			fs.entries = append(fs.entries, &vh_memEntry{stat: &types.Stat{Path: "g", Mode: uint32(os.ModeSymlink) | 0777, Linkname: "rel/t"}})
 		}
 		return fs
 	}
@@ -59,7 +59,7 @@ func VH_C09_subdir() {
 	var want []*types.Stat
 	for _, pr := range []struct {
 		name string
-		fs   *memFS
+		fs   *vh_memFS
 	}{{lo, inLo}, {hi, inHi}} {
 		want = append(want, &types.Stat{Path: pr.name, Mode: uint32(os.ModeDir) | 0755})
 		for _, e := range pr.fs.entries {
@@ -86,7 +86,7 @@ func VH_C09_subdir() {
 		v.Assert(got[i].Path == want[i].Path && got[i].Mode == want[i].Mode, "each sub-walk is reported prefixed with the name of its sub-root")
 		v.Assert(got[i].Linkname == want[i].Linkname, "hard-link names are prefixed and absolute symlink targets re-rooted")
 		if i > 0 {
-			v.Assert(specCmp(got[i-1].Path, got[i].Path) < 0, "the composite walk is in ascending protocol order")
+			v.Assert(vh_specCmp(got[i-1].Path, got[i].Path) < 0, "the composite walk is in ascending protocol order")
 		}
 	}
 	v.Cover("done")
